@@ -1,15 +1,132 @@
 /-
   C11 — BLAKE and BLAKE2 digests equal their specifications; per-block counter and finalization-flag rules.
   ONLY property theorems (and their non-vacuity examples) live here; helper lemmas are in Proofs/Lemmas.
+
+  Reading guide.  `ofBV x` is the model word (a `Model.Bits` of size w) denoting the specification word `x : BitVec w`;
+  `Match c V` (Proofs/Lemmas/BlakeRefine, Blake2Refine) says that every datum the model configuration `c` takes from the
+  regenerated `Model.Gen.BlakeG` equals the datum of the specification variant `V`.
 -/
-import Model.Blake
-import Spec.Blake
-import Spec.Blake2
+import Proofs.Lemmas.BlakeRefine
+import Proofs.Lemmas.Blake2Refine
+import Proofs.Lemmas.BlakeTrace
 namespace Proofs.C11
-open Model Model.Gen
+open Model Model.Gen Proofs.Lemmas Proofs.Lemmas.BlakeWords
+
+/-! ## tables and constants of the current source = the specifications -/
 
 /-- the permutation table of the current source is σ of the BLAKE submission and SIGMA of RFC 7693 -/
 theorem sigma_eq_spec : BlakeG.sigma = Spec.Blake.sigma ∧ BlakeG.sigma = Spec.Blake2.sigma := by
   decide +kernel
+
+/-- every sigma row is a permutation of 0..15 (all ten rows, complete check) -/
+theorem sigma_rows_are_permutations :
+    ∀ row ∈ BlakeG.sigma, ∀ j < 16, (row.filter (· = j)).length = 1 ∧ row.length = 16 := by
+  decide +kernel
+
+/-- BLAKE: constants, IVs, round counts, rotation amounts, word / block / digest sizes read from the live objects
+    `Blake(224)`, `Blake(256)`, `Blake(384)`, `Blake(512)` are those of the submission -/
+theorem blake_data_eq_spec :
+    BlakeRefine.Match Blake.blake224 Spec.Blake.blake224 ∧ BlakeRefine.Match Blake.blake256 Spec.Blake.blake256 ∧
+    BlakeRefine.Match Blake.blake384 Spec.Blake.blake384 ∧ BlakeRefine.Match Blake.blake512 Spec.Blake.blake512 := by
+  refine ⟨?_, ?_, ?_, ?_⟩ <;> constructor <;> decide +kernel
+
+/-- BLAKE2: IV, round counts, rotation amounts, geometry of `Blake2(512)`, `Blake2(256)` are those of RFC 7693 -/
+theorem blake2_data_eq_spec :
+    Blake2Refine.Match Blake2.blake2b Spec.Blake2.blake2b ∧ Blake2Refine.Match Blake2.blake2s Spec.Blake2.blake2s := by
+  refine ⟨?_, ?_⟩ <;> constructor <;> decide +kernel
+
+/-- the 32-bit constants are the module's 64-bit π digits re-chunked (high half first), in the code and in the submission;
+    the module's `PI` is the 64-bit constant table of the submission -/
+theorem pi_constants_rechunked :
+    BlakeG.c256 = (BlakeG.pi64.take 8).flatMap (fun x => [x / 2 ^ 32, x % 2 ^ 32]) ∧ BlakeG.c224 = BlakeG.c256 ∧
+    BlakeG.c512 = BlakeG.pi64 ∧ BlakeG.c384 = BlakeG.pi64 ∧ BlakeG.pi64 = Spec.Blake.c64.map BitVec.toNat ∧
+    Spec.Blake.c32 = (Spec.Blake.c64.take 8).flatMap (fun x => [x.extractLsb' 32 32, x.extractLsb' 0 32]) := by
+  decide +kernel
+
+/-- BLAKE2's IV is the SHA-2 IV (that of BLAKE-512 / BLAKE-256), in the specification and in the code -/
+theorem blake2_iv_is_sha2_iv :
+    Spec.Blake2.ivB = Spec.Blake.iv512 ∧ Spec.Blake2.ivS = Spec.Blake.iv256 ∧
+    BlakeG.b2iv512 = BlakeG.iv512 ∧ BlakeG.b2iv256 = BlakeG.iv256 := by
+  decide +kernel
+
+/-- the G call schedule found in the source is columns then diagonals, as both specifications order them -/
+theorem gschedule_eq_spec :
+    BlakeG.gsched = (List.range 8).map (fun i => [i, (Spec.Blake.positions i).1, (Spec.Blake.positions i).2.1,
+      (Spec.Blake.positions i).2.2.1, (Spec.Blake.positions i).2.2.2]) ∧ BlakeG.b2gsched = BlakeG.gsched := by
+  decide +kernel
+
+/-! ## G and the compression functions -/
+
+/-- BLAKE: the i-th G call of a round of the model is G_i of the submission, for all words -/
+theorem G_refines {c : Blake.Cfg} {V : Spec.Blake.Variant} (hm : BlakeRefine.Match c V)
+    (W v : List (BitVec V.w)) (hW : W.length = 16) (hv : v.length = 16) (r i : Nat) (hi : i < 8) :
+    Blake.gstep c (W.map ofBV) r (v.map ofBV) (BlakeG.gsched.getD i []) = (Spec.Blake.Gi V W r v i).map ofBV :=
+  BlakeRefine.gstep_refines hm W v hW hv r i hi
+
+/-- BLAKE2: the i-th G call of a round of the model is the i-th G call of RFC 7693, for all words -/
+theorem G2_refines {c : Blake.Cfg} {V : Spec.Blake2.Variant} (hm : Blake2Refine.Match c V)
+    (W v : List (BitVec V.w)) (hW : W.length = 16) (hv : v.length = 16) (r i : Nat) (hi : i < 8) :
+    Blake2.gstep c (W.map ofBV) r (v.map ofBV) (BlakeG.b2gsched.getD i []) = (Spec.Blake2.Gi V W r v i).map ofBV :=
+  Blake2Refine.gstep_refines hm W v hW hv r i hi
+
+/-- BLAKE: the loop body of `Blake.update` is the compression function of the submission: for every chain value, salt,
+    message block and counter (any `cnt`, also beyond 2^w and 2^2w: the low/high word split agrees) -/
+theorem compress_refines {c : Blake.Cfg} {V : Spec.Blake.Variant} (hm : BlakeRefine.Match c V)
+    (H salt W : List (BitVec V.w)) (hH : H.length = 8) (hs : salt.length = 4) (hW : W.length = 16) (cnt : Nat) :
+    Blake.compress c (H.map ofBV) (salt.map ofBV) (W.map ofBV) cnt = (Spec.Blake.compress V H W salt cnt).map ofBV :=
+  (BlakeRefine.compress_refines hm H salt W hH hs hW cnt).1
+
+/-- BLAKE2: the loop body of `Blake2.update` is F of RFC 7693: for every chain value, block, byte counter and flag -/
+theorem compress2_refines {c : Blake.Cfg} {V : Spec.Blake2.Variant} (hm : Blake2Refine.Match c V)
+    (H W : List (BitVec V.w)) (hH : H.length = 8) (hW : W.length = 16) (t : Nat) (fin : Bool) :
+    Blake2.compress c (H.map ofBV) (W.map ofBV) t fin = (Spec.Blake2.F V H W t fin).map ofBV :=
+  (Blake2Refine.compress_refines hm H W hH hW t fin).1
+
+/-! ## counter and finalization-flag rules -/
+
+/-- BLAKE: the counter fed with the i-th block is the number of message bits hashed up to and including that block,
+    `min(L,(i+1)·B)` on top of the bits fed before this call, and 0 for a block holding only padding; there are
+    ⌈(L+2+2w)/B⌉ blocks.  For every size, every earlier counter value (so also across 2^w), every message and bit length. -/
+theorem blake_counter (c : Blake.Cfg) (hc : c = Blake.blake224 ∨ c = Blake.blake256 ∨ c = Blake.blake384 ∨ c = Blake.blake512)
+    (s : Blake.State) (hpf : s.pad.padflag = false) (M : List Nat) (bitlen : Option Nat)
+    (hL : bitlen.getD (8 * M.length) ≤ 8 * M.length) :
+    (Blake.trace c s M bitlen true).map (·.2) =
+      (List.range ((bitlen.getD (8 * M.length) + 2 * c.wsize + 1 + c.blocksize) / c.blocksize)).map
+        (fun i => if i * c.blocksize < bitlen.getD (8 * M.length)
+          then s.pad.bitcnt + min (bitlen.getD (8 * M.length)) ((i + 1) * c.blocksize) else 0) := by
+  have key := fun h hh => (BlakeTrace.blake_yields_core h (Padder.blakeP h).blocksize (Padder.blakeW h) hh rfl s.pad hpf M bitlen _ rfl hL).2
+  simp only [Blake.trace, List.map_map]
+  rcases hc with rfl | rfl | rfl | rfl
+  · exact key 224 (by decide)
+  · exact key 256 (by decide)
+  · exact key 384 (by decide)
+  · exact key 512 (by decide)
+
+/-- BLAKE2: the byte counter fed with the i-th block is `min(|M|,(i+1)·bb)` on top of the bytes fed before this call
+    (0 for the single zero block of an empty message); there are max(1,⌈|M|/bb⌉) blocks -/
+theorem blake2_counter (c : Blake.Cfg) (hc : c = Blake2.blake2b ∨ c = Blake2.blake2s)
+    (pad : PadState) (hpf : pad.padflag = false) (M : List Nat) :
+    (Blake2.trace c pad M true).map (·.2.1) =
+      (List.range (if M.length = 0 then 1 else (8 * M.length + c.blocksize - 1) / c.blocksize)).map
+        (fun i => (if M.length = 0 then 0 else pad.bitcnt + min (8 * M.length) ((i + 1) * c.blocksize)) / 8) := by
+  rw [BlakeTrace.trace_counters]
+  have key := fun B hB => (BlakeTrace.null_yields_core B hB pad hpf M).2
+  rcases hc with rfl | rfl
+  · have := key 1024 (by decide)
+    rw [show (fun (x : List Nat × PadState) => x.2.bitcnt / 8) = (fun n => n / 8) ∘ (fun x => x.2.bitcnt) from rfl,
+      ← List.map_map]
+    erw [this]; simp [List.map_map, Blake2.blake2b, Blake.Cfg.blocksize]
+  · have := key 512 (by decide)
+    rw [show (fun (x : List Nat × PadState) => x.2.bitcnt / 8) = (fun n => n / 8) ∘ (fun x => x.2.bitcnt) from rfl,
+      ← List.map_map]
+    erw [this]; simp [List.map_map, Blake2.blake2s, Blake.Cfg.blocksize]
+
+/-- BLAKE2: within a padding (final) call the finalization flag is set on the last block and on no other; a
+    non-padding call (`update(M)` of a streamed message) sets it on no block.  For every state and message. -/
+theorem final_flag_iff_last (c : Blake.Cfg) (pad : PadState) (M : List Nat) (padding : Bool) :
+    (Blake2.trace c pad M padding).map (·.2.2) =
+      (List.range (Blake2.trace c pad M padding).length).map
+        (fun i => padding && i + 1 == (Blake2.trace c pad M padding).length) := by
+  rw [BlakeTrace.trace_flags, BlakeTrace.trace_length]
 
 end Proofs.C11
